@@ -233,7 +233,9 @@ func c07run(e *c07entry, in []byte) (viol string, detail string) {
 var c07leaves = []string{"1", "-0", "1.5", "1.00000000000000011102230246251565404236316680908203125", "123456789012345678901234567890", "1e400", `""`, `"s\n\u00e9"`, "null", "true",
 	"{}", "[]", `{"a":1}`, "[1,2]", "1,2", `"k":1`}
 
-func c07deep(shape string, depth int, closed bool) []byte { return c07deepLeaf(shape, depth, closed, "1") }
+func c07deep(shape string, depth int, closed bool) []byte {
+	return c07deepLeaf(shape, depth, closed, "1")
+}
 
 func c07deepLeaf(shape string, depth int, closed bool, leaf string) []byte {
 	var open, cl string
@@ -307,7 +309,11 @@ func c07encCases() []c07encCase {
 		u := u
 		for d, mk := range []func(reflect.Value) interface{}{
 			func(v reflect.Value) interface{} { return v.Interface() },
-			func(v reflect.Value) interface{} { s := reflect.MakeSlice(reflect.SliceOf(v.Type()), 1, 1); s.Index(0).Set(v); return s.Interface() },
+			func(v reflect.Value) interface{} {
+				s := reflect.MakeSlice(reflect.SliceOf(v.Type()), 1, 1)
+				s.Index(0).Set(v)
+				return s.Interface()
+			},
 			func(v reflect.Value) interface{} {
 				m := reflect.MakeMap(reflect.MapOf(reflect.TypeOf(""), reflect.SliceOf(v.Type())))
 				s := reflect.MakeSlice(reflect.SliceOf(v.Type()), 1, 1)
